@@ -196,6 +196,16 @@ struct SampleRun {
         for (;; skipped++) {
             uint8_t xle[96]; memset(xle, 0, 96); x[0].to_le(xle, 48); if (g == 2) x[1].to_le(xle + 48, 48);
             int ok = g == 1 ? R.jv_g1a_from_x(aff, xle, 0) : R.jv_g2a_from_x(aff, xle, 0);
+            {   // independent of the library's own square test: x^3 + b is a square iff (G1) its Legendre symbol, (G2) the Legendre symbol of its norm, is not -1
+                const Bn& q = K().q; Bn lgv;
+                if (g == 1) lgv = Bn::addmod(Bn::mulmod(Bn::mulmod(x[0], x[0], q), x[0], q), Bn(4), q);
+                else { Bn a = x[0], b = x[1], a2 = Bn::mulmod(a, a, q), b2 = Bn::mulmod(b, b, q);
+                       Bn re = Bn::addmod(Bn::submod(Bn::mulmod(a2, a, q), Bn::mulmod(Bn(3), Bn::mulmod(a, b2, q), q), q), Bn(4), q);          // a^3 - 3ab^2 + 4
+                       Bn im = Bn::addmod(Bn::submod(Bn::mulmod(Bn(3), Bn::mulmod(a2, b, q), q), Bn::mulmod(b2, b, q), q), Bn(4), q);          // 3a^2 b - b^3 + 4
+                       lgv = Bn::addmod(Bn::mulmod(re, re, q), Bn::mulmod(im, im, q), q); if (im.is_zero()) env.count("probe:g2_candidate_with_x3_plus_b_in_the_base_field"); }
+                uint8_t le[48]; lgv.to_le(le, 48); bool square = R.jv_fq_legendre(le) != -1;
+                if (square != (ok != 0)) env.fail("C10", "hash-to-curve:first-point", strf("candidate x for G%d: x^3+b %s a square, but the library's point-from-x %s it", g, square ? "is" : "is not", ok ? "accepts" : "rejects"));
+            }
             if (ok) break;
             if (skipped > 300) env.fail("C10", "hash-to-curve:total", "model found no curve point within 300 increments");
             x[0] = Bn::addmod(x[0], Bn(1), K().q);
@@ -256,6 +266,19 @@ struct SampleScenario : Scenario {
             } else {
                 int g = r.range(0, 1); std::string h = rhex(r, g ? 96 : 48); int m = r.range(0, 5);
                 if (m <= 2) { uint8_t b[96]; memset(b, 0, 96); Bn v = m == 0 ? K().q : m == 1 ? Bn::sub(K().q, Bn(1)) : Bn::add(K().q, Bn(5)); v.to_be(b, 48); if (g) v.to_be(b + 48, 48); b[0] |= (uint8_t) (r.below(8) << 5); h = hex(b, g ? 96 : 48); }
+                if (g == 1 && r.chance(1, 6)) {   // G2 candidates x = a + b*u with x^3 + b inside the base field (square in Fq2 whatever its symbol in Fq), reached directly or after 1-2 increments
+                    static const char* SP[8][2] = {
+                        {"1088d9c350fa55f15aea762b72fca5df7793bfbdbb1d585b091c21229640cf46cbfeb7a5e087ada8be33b33b21aba6a5", "13939d412ca1c789a091250e8fe4602442d6cb5c6ed4e94bdfc9e3b11fcff4545f811cb929645f8b6facaa5090e5e946"},
+                        {"1270d6dfc4ef038797735fea18659f182c3f3becfdc390b78a835f5176fc2ce05273de306b286a1fd0d7a7ca8874d588", "055490af8101e89a95c5fb986980a81fbc428d42fa88269287f26aee175f0cd2bb9d58e4f543bbcfbcf74d7a5adad122"},
+                        {"0211fee5d6064de8d7a8db74e67c74d226842e4a0faf68b9b8fa29ca0fa3b7a7a6a6f3325f47309f94001c4ce430b690", "12904140c555663f29ef41d0deea959ea9f559fcf0b3786801b5577d00e266d06a5ccc2cbe99854ab0d26ee6fa928907"},
+                        {"0cd3a74cb147ec8f883603a87329bae935f71baa1bbf6bdbbffbaafc756948985911bde58d262de94c87d39ef82e81c0", "0ff9a67adf8960ad1eab5cd83b788b660a4de3e4ce9fb6a85473da68d3285151e9c329a8b59a59699893588c860a7da2"},
+                        {"12f83d6e5adfd2a6510fd6b4a1f9dd1eea28f5842ab6ac27cac09acdb54a5b336722962130703e9fb2c4601baa120fa4", "0427e323f56ae7eaea80db0684ab56166f05571896af0dea41fad2962f927291ab721ab08e1a11f0c18c6da1cd4944b7"},
+                        {"0154812674704039927ed94a9f4bfad948642b16943cd82ff2f95bf3ce08ae2926e9df0a3a2ff048e38e4ef984a33355", "19920b30fe9e6246635a8ce2141cb03e71f2f9c4b6307bad0f967bcc0ca02f4d03499f8452e1fbb062d1c049282fe558"},
+                        {"027c54abede1c1e9c79b3e3256cf13a3f1fdf2dbfa526de499872d112cc12f0d40b96946a3034be3083aa46687d069df", "13e630087b1427081f1af1fac2e1dac48334bb82adbfb00e372139f35e2503ddb65b9045c5bc647a02ff5f56c9f0b073"},
+                        {"163417b46d0a9681452037c92bf215f4d44b5781939cb370d3f41542c5bc4b480ff61cfc979b3727196c226f5d72096e", "0ba83d64339bb47e8cc05570f3d90ebdec2fc96a6bbb69f5f74fd9ec9c2ecc16c5a0ff6d53650fc77de6002da0485923"}};
+                    size_t si = r.below(8); Bn a = Bn::from_hex(SP[si][0]), bb = Bn::from_hex(SP[si][1]); a = Bn::sub(a, Bn(r.below(3)));
+                    uint8_t hb[96]; bb.to_be(hb, 48); a.to_be(hb + 48, 48); h = hex(hb, 96);
+                }
                 int idm = r.chance(1, 2); p.ops.push_back({"HASHC", {g, idm}, {h}});
                 // related consecutive inputs: the next hash differs from this one only in its trailing (or leading) bytes
                 if (r.chance(1, 2)) { std::string h2 = h; size_t at = r.chance(3, 4) ? h2.size() - 2 - 2 * r.below(16) : 2 * r.below(8); h2[at] = h2[at] == 'f' ? '0' : 'f'; p.ops.push_back({"HASHC", {g, idm}, {h2}}); }
